@@ -13,7 +13,9 @@ MA1 = (f"""(define (domain ma1)
 (:action take :parameters (?a - agent ?i - item)
   :precondition (and (free ?i) (not (busy ?a))) :effect (and (not (free ?i)) (has ?a ?i)))
 (:action drop :parameters (?a - agent ?i - item)
-  :precondition (and (has ?a ?i)) :effect (and (free ?i) (not (has ?a ?i)) (not (busy ?a)))))
+  :precondition (and (has ?a ?i)) :effect (and (free ?i) (not (has ?a ?i)) (not (busy ?a))))
+(:action pass :parameters (?a - agent ?b - agent ?i - item)
+  :precondition (and (has ?a ?i)) :effect (and (not (has ?a ?i)) (has ?b ?i))))
 """, """(define (problem ma1p) (:domain ma1)
 (:objects {agents} - agent i1 i2 - item)
 (:init (free i1) (free i2))
